@@ -659,6 +659,26 @@ def check_api(case):
     s1, s2 = uniq[j1 % len(uniq)], uniq[j2 % len(uniq)]
     k1 = f'{scoped(scope, s1)}.{param}'
     k2 = (scope, s2, param) if tuple_key else f'{scoped(scope, s2)}.{param}'
+    if (j1 + j2 + i) % 3 == 0:
+      # one hook, returning a binding under one (possibly partial) spelling: after finalize the
+      # parameter has that value under every spelling, as if it had been bound through the API
+      gin.config.register_finalize_hook(lambda config: {k1: 1001})
+      try:
+        gin.finalize()
+      except Exception as e:  # pylint: disable=broad-except
+        raise Violation('finalize-rejected-hook-binding', f'{k1!r}: {type(e).__name__}: {e}')
+      for sp in uniq:
+        got = gin.query_parameter(f'{scoped(scope, sp)}.{param}')
+        require(got == 1001, 'hook-binding-not-visible-under-spelling',
+                lambda: f'hook returned {k1!r}; {scoped(scope, sp)}.{param} -> {got!r}')
+      with gin.config_scope(scope or None):
+        got = gin.get_bindings(full).get(param)
+      require(got == 1001, 'hook-binding-not-visible-under-spelling',
+              lambda: f'hook returned {k1!r}; get_bindings({full!r}) under {scope!r}: {got!r}')
+      labels.add('hook-single')
+      if s1 != full:
+        labels.add('hook-single-partial-spelling')
+      return ok(['api:' + l for l in labels] + ['layer:api'], True)
     gin.config.register_finalize_hook(lambda config: {k1: 1001})
     gin.config.register_finalize_hook(lambda config: {k2: 1002})
     before = state()
